@@ -5,7 +5,8 @@
      tree ::= T <depth> <closed 0|1> <#nodes> <node>* <#children> <tree>*
      node ::= N <sentence | _> <world|_> <+|-|_> <world1|_> <world2|_> <ellipsis 0|1> <ticked 0|1> <c|q|_>
               (sentence in the encoding of Ptx/Wire.lean; c = closure flag, q = any other flag)
-     -> `ok <WF 0|1> <text>`     text = code points joined by `,` (`-` for the empty string)
+     -> `ok <WF 0|1> <text> <regular 0|1>`   text = code points joined by `,` (`-` for the empty string);
+        regular = every node is `RNode.regular` (hypothesis of C19_render_injective)
         `err:wire` | `err:table`
 
    textread <text>
@@ -99,7 +100,7 @@ def handle (ts : List String) : Option String :=
         | some (notn, t) =>
           match findTable (if nt == "p" then "polish" else "standard") dia with
           | none => "err:table"
-          | some tb => s!"ok {b01 t.WF} {showChars (renderText Gen.RenderMarks.textMarks tb notn t)}"
+          | some tb => s!"ok {b01 t.WF} {showChars (renderText Gen.RenderMarks.textMarks tb notn t)} {b01 (t.allNodes (RNode.regular Gen.Symbols.maxi))}"
     | _ => some "err:wire"
   | ["textread", txt] =>
     some <| match parseChars txt with
